@@ -143,6 +143,14 @@ Theorem C08_binary_operator_tokens_are_the_source : forall k,
 Proof. intros k. split; [apply is_binary_op_pinned | split; [apply binop_of_token_pinned | apply unop_of_token_pinned]]. Qed.
 Theorem C08_function_table_is_the_source : func_table = gen_func_table.
 Proof. exact func_table_pinned. Qed.
+(* every arm of BinOp::eval and UnaryOp::eval, translated from src/expr.rs on every run *)
+Theorem C08_operator_arms_are_the_source : forall op l r,
+  binop_eval op l r =
+  if (r =? 0)%Z && existsb (binop_beq op) gen_div_guard then Err XE_DivisionByZero
+  else Ok (gen_binop_value op l r).
+Proof. exact binop_eval_pinned. Qed.
+Theorem C08_unary_arms_are_the_source : forall op v, unop_eval op v = gen_unop_value op v.
+Proof. exact unop_eval_pinned. Qed.
 
 Check C08_tree_unique.
 Print Assumptions C08_tree_is_precedence_correct.
